@@ -18,6 +18,8 @@ package main
 //     (NewIRCServer copies the struct, not the map).  The driver replaces it by a fresh map before
 //     every case so that cases are independent; see corpus/irc/README.md (observation O1).
 //   * outcome `skip` (M/X for a session that does not exist) is decided by GetSession before the call.
+//   * outcome `dup` (M with a non-zero client message id equal to the marker of its session, fix 92a4e2e) is
+//     printed when LastPostMessage said so before the call AND the call stored no output batch.
 //   * a panic inside the apply is recovered, printed as `panic=<hex of first line>`; the step carries
 //     `inv=- n=0` and no dump; all remaining steps print the single token `notrun`.  The function in
 //     which the panic was raised is written to $VERIF_OUT.panics as
@@ -301,6 +303,7 @@ func (c *vCase) vStep(f []string, inv bool, caseIdx, stepIdx int, panics io.Writ
 	need := func(n int) bool { return len(f) >= n }
 	var msg *robust.Message
 	outcomeOverride := ""
+	dupCandidate := false
 	switch f[0] {
 	case "C":
 		if !need(4) {
@@ -324,6 +327,10 @@ func (c *vCase) vStep(f []string, inv bool, caseIdx, stepIdx int, panics io.Writ
 			ClientMessageId: vU64(f[4]), RemoteAddr: ra, Data: data, UnixNano: vI64(f[2])}
 		if _, err := c.srv.GetSession(msg.Session); err != nil {
 			outcomeOverride = "skip"
+		} else if msg.ClientMessageId != 0 && c.srv.LastPostMessage(msg.Session) == msg.ClientMessageId {
+			// second copy of the session's last client message: the repaired applyRobustMessage skips it.
+			// Reported as `dup` only when the call indeed left no output batch (see below).
+			dupCandidate = true
 		}
 	case "X":
 		if !need(6) {
@@ -409,6 +416,11 @@ func (c *vCase) vStep(f []string, inv bool, caseIdx, stepIdx int, panics io.Writ
 	outcome := vErrName(err)
 	if outcomeOverride != "" && err == nil {
 		outcome = outcomeOverride
+	}
+	if dupCandidate && err == nil {
+		if msgs, ok := c.o.Get(robust.Id{Id: msg.Id.Id}); !ok || len(msgs) == 0 {
+			outcome = "dup"
+		}
 	}
 	return outcome + " " + c.vInv(inv) + " " + c.vMessages(msg.Id.Id), false
 }
